@@ -11,6 +11,7 @@ import (
 	"reflect"
 	"strconv"
 	"strings"
+	"sync"
 	"testing"
 	"unicode/utf8"
 
@@ -769,6 +770,60 @@ func runC14conv(c C14Case) ev.Outcome {
 			}
 		}
 		o.NonTrivial = k == "" || wantMarked
+	case "mask_roundtrip", "mask_roundtrip_after_other_calls", "mask_roundtrip_concurrent":
+		// replays of the exhaustive sweep's cases
+		for _, s := range c.Strs {
+			maskInterfere(s)
+		}
+		check := func(m int32) string {
+			mask := api.EventMask(m)
+			s := mask.PrettyString()
+			var back api.EventMask
+			var err error
+			if s == "" {
+				back, err = api.ParseEventMask()
+			} else {
+				back, err = api.ParseEventMask(s)
+			}
+			if err != nil || back != mask {
+				return fmt.Sprintf("ParseEventMask(PrettyString(%#x)=%q) = %#x, %v", m, s, int32(back), err)
+			}
+			return ""
+		}
+		if c.Kind != "mask_roundtrip_concurrent" {
+			if d := check(c.Mask); d != "" {
+				return ev.Failf("%s", d)
+			}
+			o.NonTrivial = c.Mask != 0
+			break
+		}
+		var mu sync.Mutex
+		first := ""
+		var wg sync.WaitGroup
+		for w := 0; w < 8; w++ {
+			w := w
+			wg.Add(1)
+			go func() {
+				defer wg.Done()
+				for round := 0; round < 8; round++ {
+					for m := int32(1 + w); m <= int32(api.ValidEvents); m += 8 {
+						if d := check(m); d != "" {
+							mu.Lock()
+							if first == "" {
+								first = d
+							}
+							mu.Unlock()
+							return
+						}
+					}
+				}
+			}()
+		}
+		wg.Wait()
+		if first != "" {
+			return ev.Failf("while 8 goroutines print and parse masks concurrently: %s", first)
+		}
+		o.NonTrivial = true
 	case "mask_history":
 		for _, s := range c.Strs {
 			maskInterfere(s)
@@ -1164,6 +1219,49 @@ func TestExh_C14(t *testing.T) {
 				t.Fatalf("C14: %s", o.Fail)
 			}
 			n++
+		}
+	}
+	// third pass: the printer / parser pair used from several goroutines at once (plugins and
+	// stubs of one process print their subscriptions concurrently): every goroutine
+	// round-trips its own share of the masks while the others do the same
+	const workers = 8
+	type bad struct {
+		m    int32
+		s    string
+		back api.EventMask
+		err  error
+	}
+	found := make([]*bad, workers)
+	var wg sync.WaitGroup
+	for w := 0; w < workers; w++ {
+		w := w
+		wg.Add(1)
+		go func() {
+			defer wg.Done()
+			for round := 0; round < 4 && found[w] == nil; round++ {
+				for m := int32(1 + w); m <= int32(api.ValidEvents); m += workers {
+					mask := api.EventMask(m)
+					s := mask.PrettyString()
+					back, err := api.ParseEventMask(s)
+					if err != nil || back != mask {
+						found[w] = &bad{m, s, back, err}
+						break
+					}
+				}
+			}
+		}()
+	}
+	wg.Wait()
+	for w := 0; w < workers; w++ {
+		c := C14Case{Kind: "mask_roundtrip_concurrent", Mask: int32(1 + w)}
+		o := ev.Outcome{Classes: []string{"kind:mask_roundtrip_concurrent"}, NonTrivial: true}
+		if b := found[w]; b != nil {
+			c.Mask, c.S = b.m, b.s
+			o = ev.Failf("while %d goroutines print and parse masks concurrently: ParseEventMask(PrettyString(%#x)=%q) = %#x, %v", workers, b.m, b.s, int32(b.back), b.err)
+		}
+		r.Record(c, o)
+		if o.Fail != "" {
+			t.Fatalf("C14: %s", o.Fail)
 		}
 	}
 	r.SetExtra("exhaustive_masks", n)
